@@ -178,7 +178,10 @@ def input_faults(case, inputs, rng):
                     if a is not None:
                         named.setdefault(a, []).append((p, k))
         for a, lst in named.items():
-            if len(lst) >= 2:
+            # the zip partners must be two different ROOT arrays (an array derived from the resized root would simply
+            # be resized with it, which is a valid request)
+            lst = [(p, k) for p, k in lst if p in case["roots"]]
+            if len({p for p, _ in lst}) >= 2:
                 for p, k in lst:
                     if p in case["roots"]:
                         arr = mapgen._obj(inputs[p])
@@ -272,6 +275,45 @@ def run_map_batch(v, desc, scratch):
             attempt(op, label, mcase, mapgen.make_inputs(mcase) if set(mcase["roots"]) != set(case["roots"]) else inputs, bkw, {})
         for op, label, minputs, mkw in input_faults(case, inputs, rng):
             attempt(op, label, case, minputs, {}, mkw)
+        # the same run-time faults against a folder that does not exist yet / is empty (cleanup=False): a rejected
+        # request must not create or fill it
+        for op, label, minputs, mkw in input_faults(case, inputs, rng):
+            for kind in ("absent", "empty"):
+                f2 = os.path.join(scratch, f"fresh-{i}-{kind}")
+                shutil.rmtree(f2, ignore_errors=True)
+                if kind == "empty":
+                    os.makedirs(f2)
+                before = fsmon.snapshot(f2)
+                log = probes.new_log(scratch)
+                ex = None
+                err = None
+                try:
+                    with quiet():
+                        p = mapgen.build_pipeline(case, log=log)
+                        kw = dict(run_folder=f2, internal_shapes=mapgen.internal_shapes_arg(case), parallel=False, storage="file_array", cleanup=False)
+                        kw.update(mkw)
+                        if kw.get("executor") == "THREAD":
+                            ex = kw["executor"] = ThreadPoolExecutor(1)
+                        p.map(minputs, **kw)
+                except Exception as e:  # noqa: BLE001
+                    err = e
+                finally:
+                    if ex is not None:
+                        ex.shutdown()
+                calls = probes.log_read(log)
+                os.unlink(log)
+                after = fsmon.snapshot(f2)
+                v.count("snapshot_comparisons")
+                v.count("fresh_folder_faults")
+                w = dict(case=mapgen.describe(case), operator=op, position=label, folder=kind)
+                if err is None:
+                    v.bad(f"accepted:{op}", f"ill-formed request ({op} at {label}) was accepted", **w)
+                if calls:
+                    v.bad(f"user-code-ran:{op}", f"{len(calls)} user call(s) before the rejection", **w)
+                if after != before:
+                    v.bad(f"run-folder-altered:{op}/{kind}-folder" + ("" if err is None else ":" + type(err).__name__),
+                          f"a rejected request created / filled the {kind} run folder: {fsmon.snapshot_diff(before, after)[:4]}", **w)
+                shutil.rmtree(f2, ignore_errors=True)
         shutil.rmtree(folder, ignore_errors=True)
         shutil.rmtree(pristine, ignore_errors=True)
     return keys
@@ -313,6 +355,16 @@ def run_call_batch(v, desc, scratch):
                             pp = daggen.build_pipeline(case, log=log)
                             tgt = next(f for f in case["funcs"] if label in f["defaults"] and label not in f["bound"])
                             pp[tgt["outs"][0]].update_defaults({label: "OTHER"})
+                    # other outputs called first with the SAME keyword names (those calls may be valid): a memo of
+                    # "validated" keyword names must not leak from one output to another
+                    for o2 in daggen.all_outputs(case):
+                        if o2 != out:
+                            try:
+                                with quiet():
+                                    pp(o2, **K)
+                                v.count("warm_up_calls_accepted")
+                            except Exception:  # noqa: BLE001
+                                pass
                     probes.log_clear(log)
                     err = None
                     try:
@@ -355,6 +407,10 @@ def finalize(agg, tier, seed):
         need = 30 if op in ("inconsistent-defaults", "inconsistent-defaults-after-member-update", "resized-zipped-axis", "axis-name-swap-in-consumer", "rank-change-in-consumer") else 100
         if agg.counters.get(f"op:{op}", 0) < need:
             floors.append(f"operator {op} applied {agg.counters.get(f'op:{op}', 0)} times (< {need})")
+    if agg.counters.get("fresh_folder_faults", 0) < 500:
+        floors.append("fewer than 500 faults against an absent / empty run folder")
+    if agg.counters.get("warm_up_calls_accepted", 0) < 200:
+        floors.append("fewer than 200 accepted warm-up calls before a faulty call")
     if agg.counters.get("snapshot_comparisons", 0) < 1000:
         floors.append("fewer than 1000 run-folder snapshot comparisons")
     return floors, {}
